@@ -893,3 +893,18 @@ def passed_as_argument(outer: FuncInfo) -> Callable[[FuncInfo], bool]:
                     return True
         return False
     return pred
+
+
+def unit_inline(modules: Sequence[str], keep: Sequence[str]) -> Callable[[FuncInfo], bool]:
+    """Inline policy for the path analyses of one component: besides private helpers, every function / method defined in the
+    component's own modules is part of the unit (a decision split off into another method, a request-reading stage, a shared
+    function that both interface copies delegate to) - except the names the rules talk about (`keep`), generators and
+    decorated definitions."""
+    from .collect import default_inline
+    mods, kept = tuple(modules), set(keep)
+
+    def policy(fi: FuncInfo) -> bool:
+        if default_inline(fi):
+            return True
+        return fi.module.name in mods and fi.name not in kept and not fi.is_generator() and not fi.decorators
+    return policy
